@@ -19,6 +19,7 @@ from optree import _C
 from optsim import gen
 from optsim import universe as U
 from optsim.same import same
+from optsim import tstate as TS
 from optsim.scenario import OPS, OP_NAMES, Scn, clone, outcome, same_outcome, describe_outcome
 from optsim.tape import Tape, derive_seed
 
@@ -45,7 +46,7 @@ REAL_VS_STUB = {
 }
 EXPECTED_PROBES = ('is_leaf', 'flatten_func', 'unflatten_func', 'map_fn', 'key.__hash__', 'key.__lt__', 'key.__eq__',
                    'meta.__ne__', 'meta.__repr__', 'f_node', 'f_leaf', 'leaves.__next__',
-                   'children.__next__', 'nt.__new__', 'dc.__post_init__') + tuple('op:' + n for n in OP_NAMES)
+                   'children.__next__', 'nt.__new__', 'dc.__post_init__', 'tstate-ledger:on') + tuple('op:' + n for n in OP_NAMES)
 # (metadata __eq__ / __hash__ are not in the list: the engine compares custom metadata with `!=` only
 #  (richcomparison.cpp) and deliberately does not hash it (hashing.cpp:42), so those two can never fire)
 
@@ -168,9 +169,13 @@ def run_job(job, io):
     if base[0] == 'exc' and isinstance(base[1], SystemError):
         viol('internal-error', '%s@baseline' % opname, 'fault-free call raised %s' % describe_outcome(base))
     events2 = []
+    ts_b = TS.counters()
     U.HOOK = events2.append
     base2 = outcome(fn, scn)
     U.HOOK = None
+    if TS.counters() != ts_b:
+        viol('thread-state', '%s@baseline' % opname, 'recursion counters of the calling thread changed across a fault-free call: %r -> %r' % (ts_b, TS.counters()))
+    probes['tstate-ledger:' + ('on' if ts_b is not None else 'off')] = 1
     d = same_outcome(base, base2)
     if d or events2 != labels:
         viol('unstable', '%s@baseline' % opname, 'two fault-free executions differ: %s; events %d vs %d' % (d, n_events, len(events2)))
@@ -227,9 +232,11 @@ def run_job(job, io):
         refs_b = refcounts(tracked, buf_b)
         n_b = gc_count()
         rc_b = sys.getrefcount(inj)
+        ts_b = TS.counters()
         U.HOOK = hook
         got = outcome(fn, scn)
         U.HOOK = None
+        ts_a = TS.counters()
         verdict = 'ok' if got[0] == 'ok' else ('same' if got[1] is inj else 'other')
         if (verdict == 'other' and type(got[1]) is KeyError and len(got[1].args) == 1 and id(got[1].args[0]) in od_keys
                 and label in ('key.__hash__', 'ukey.__hash__', 'key.__eq__', 'ukey.__eq__')):
@@ -283,6 +290,11 @@ def run_job(job, io):
         keys.add('%s|%s|%s|%d' % (opname, label, kind, bucket(site_ord[k - 1])))
         if leak:
             viol(leak[0], site, leak[1])
+        if ts_a != ts_b:
+            # the calling thread's recursion budget (Python frames, C recursion) is interpreter state the failed call must
+            # hand back: an Enter/LeaveRecursiveCall pair skipped on the exceptional path shows here and nowhere else
+            viol('thread-state', site, 'recursion counters of the calling thread (python frames remaining, C recursion remaining) '
+                 'changed across the failed call: %r -> %r' % (ts_b, ts_a))
         if cnt[0] < k:
             viol('unstable', site, 'faulted execution made only %d of the %d callback calls before fault %d' % (cnt[0], K, k))
         elif kind == 'raise-typeerror-lt':
